@@ -8,7 +8,8 @@
      _apply_node_to_face_aggregation_numpy: result = np.empty(... n_face) (cells start as None =
        "uninitialised"), loop over zip(element_sizes, change_ind[:-1], change_ind[1:]):
        face_inds = sorted_ind[start:end]; face_nodes_par = face_node_conn[face_inds, 0:e];
-       aggregation_func(data[..., face_nodes_par], axis=-1); result[..., face_inds] = ...;
+       aggregation_func(data[..., face_nodes_par], axis=-1); result allocated at the first store;
+       result[..., face_inds] = ...;
      _apply_node_to_edge_aggregation_numpy: aggregation_func(data[..., edge_node_conn], axis=-1);
      _uxda_grid_aggregate: dispatch and error paths; the dims/shape bookkeeping of
        UxDataArray(data=..., dims=uxda.dims).rename({"n_node": dest}).
@@ -154,7 +155,7 @@ Section Agg.
 
   (* one leading index: data is the vector along the LAST axis.  An IndexError in any iteration
      leaves no result (None); otherwise the stores of all iterations are applied in loop order. *)
-  Definition c17_face_row_with (sorted_ind : list Z) (t : table) (data : list A)
+  Definition c17_face_row_body (sorted_ind : list Z) (t : table) (data : list A)
     : option (list (option B)) :=
     match c17_all_some (map (fun g => match c17_gather data (snd g) with
                                       | Some vals => Some (fst g, agg vals)
@@ -162,6 +163,16 @@ Section Agg.
                             (c17_gathers_with sorted_ind t)) with
     | Some ws => Some (c17_scatter (repeat None (length t)) ws)
     | None => None
+    end.
+
+  (* result = None before the loop; the buffer is allocated at the first store (with the dtype the
+     reduction produces — dtypes are not modelled).  Without faces the loop body never runs and no
+     array is produced. *)
+  Definition c17_face_row_with (sorted_ind : list Z) (t : table) (data : list A)
+    : option (list (option B)) :=
+    match t with
+    | [] => None
+    | _ :: _ => c17_face_row_body sorted_ind t data
     end.
 
   Definition c17_face_row (t : table) (data : list A) : option (list (option B)) :=
@@ -205,6 +216,8 @@ Definition c17_dispatch (dims : list c17_dim) (dest : option c17_dest) : c17_out
   | None => C17_ValueError
   | Some d =>
       if c17_has C17_n_node dims then
+        (* if uxda.dims[-1] != "n_node": raise ValueError(... 'n_node' to be the last dimension) *)
+        if negb (c17_dim_eqb (last dims C17_n_node) C17_n_node) then C17_ValueError else
         match d with
         | C17_to_face => C17_run C17_to_face
         | C17_to_edge => C17_run C17_to_edge
